@@ -477,7 +477,7 @@ def do_op(lab, side, op, content):
             return ("mkdir", "/d/s")
         if op == "rmdir_d":
             i = info("/d")
-            if not i or i.otype.value != "folder":
+            if not i or i.otype.value != "dir":
                 return ("noop", op)
             if list(p.listdir(i.oid)):
                 return ("noop", op)
@@ -485,7 +485,7 @@ def do_op(lab, side, op, content):
             return ("rmdir", "/d")
         if op == "rendir_d_e":
             i = info("/d")
-            if not i or i.otype.value != "folder" or info("/e"):
+            if not i or i.otype.value != "dir" or info("/e"):
                 return ("noop", op)
             p.rename(i.oid, root + "/e")
             return ("rendir", "/d", "/e")
